@@ -22,6 +22,19 @@ loaded_files = []
 
 
 def __vp_fmt__(kind, lit, *args, **kw):
+    # receivers that are not literals: dispatch on the run-time type
+    if kind == '%any':
+        if not isinstance(lit, str):
+            return lit % args[0]
+        kind = '%'
+    elif kind == 'format_any':
+        if not isinstance(lit, str):
+            return lit.format(*args, **kw)
+        kind = 'format'
+    elif kind == 'join_any':
+        if not isinstance(lit, str):
+            return lit.join(args[0])
+        kind = 'join'
     h = fmt_hook[0]
     if h is not None:
         r = h(kind, lit, args, kw)
@@ -55,25 +68,29 @@ def __vp_fmt__(kind, lit, *args, **kw):
 class _T(ast.NodeTransformer):
     def visit_BinOp(self, node):
         self.generic_visit(node)
-        if isinstance(node.op, ast.Mod) and isinstance(node.left, ast.Constant) and isinstance(node.left.value, str):
+        if isinstance(node.op, ast.Mod):
+            if isinstance(node.left, ast.Constant) and not isinstance(node.left.value, str):
+                return node
+            kind = '%' if (isinstance(node.left, ast.Constant) and isinstance(node.left.value, str)) else '%any'
             return ast.copy_location(ast.Call(
                 func=ast.Name('__vp_fmt__', ast.Load()),
-                args=[ast.Constant('%'), node.left, node.right], keywords=[]), node)
+                args=[ast.Constant(kind), node.left, node.right], keywords=[]), node)
         return node
 
     def visit_Call(self, node):
         self.generic_visit(node)
         f = node.func
-        if isinstance(f, ast.Attribute) and f.attr == 'join' and isinstance(f.value, ast.Constant) \
-                and isinstance(f.value.value, str) and len(node.args) == 1 and not node.keywords:
+        if isinstance(f, ast.Attribute) and f.attr == 'join' and len(node.args) == 1 and not node.keywords \
+                and not isinstance(node.args[0], ast.Starred):
+            kind = 'join' if (isinstance(f.value, ast.Constant) and isinstance(f.value.value, str)) else 'join_any'
             return ast.copy_location(ast.Call(
                 func=ast.Name('__vp_fmt__', ast.Load()),
-                args=[ast.Constant('join'), f.value, node.args[0]], keywords=[]), node)
-        if isinstance(f, ast.Attribute) and f.attr == 'format' and isinstance(f.value, ast.Constant) \
-                and isinstance(f.value.value, str):
+                args=[ast.Constant(kind), f.value, node.args[0]], keywords=[]), node)
+        if isinstance(f, ast.Attribute) and f.attr == 'format':
+            kind = 'format' if (isinstance(f.value, ast.Constant) and isinstance(f.value.value, str)) else 'format_any'
             return ast.copy_location(ast.Call(
                 func=ast.Name('__vp_fmt__', ast.Load()),
-                args=[ast.Constant('format'), f.value] + node.args, keywords=node.keywords), node)
+                args=[ast.Constant(kind), f.value] + node.args, keywords=node.keywords), node)
         return node
 
     def visit_JoinedStr(self, node):
